@@ -27,9 +27,9 @@ def inv(o, m, *a): return ["invoke", o, m, list(a)]
 PLACEMENTS = ["module", "fn0", "fn1", "fn3", "method1", "callback"]
 PREFIXES = ["none", "ternary", "send", "andor", "loopbreak"]
 LOOPS = ["none", "while", "for"]
-NESTS = ["single", "inner", "incatch"]
+NESTS = ["single", "inner", "incatch", "exit_after_inner", "exit_in_inner_catch"]
 RAISES = [None, 0, 2]
-ORIGINS = ["error", "sub", "vm", "native"]
+ORIGINS = ["error", "sub", "vm", "native", "vmbin", "vmneg"]  # vmbin / vmneg: the failing instruction has already popped its operands when the error object is built
 FILTERS = [None, "Error", "MyErr", "OtherErr"]
 EXITS = ["complete", "break", "continue", "return", "return_raises"]  # return_raises: the error comes out of the expression of a `return` inside the try
 
@@ -41,6 +41,10 @@ def origin_stmt(o):
         return ["raise", call("MyErr", S("sub"))]
     if o == "vm":
         return ["expr", ["index", ["list", []], N(1)]]
+    if o == "vmbin":
+        return ["expr", ["bin", "+", ["nil"], N(1)]]
+    if o == "vmneg":
+        return ["expr", ["un", "-", S("s")]]
     return ["expr", inv(V("Number"), "parse", S("zz"))]
 
 
@@ -59,7 +63,9 @@ def scenario(pl, nlocals, prefix, loop, nest, rdepth, origin, filt, exitp, late)
               ["fn", "thrower", ["d", "k"], [["if", ["bin", "==", V("d"), N(0)], [["if", ["bin", "==", V("k"), N(0)], [origin_stmt("error")], None],
                                                                              ["if", ["bin", "==", V("k"), N(1)], [origin_stmt("sub")], None],
                                                                              ["if", ["bin", "==", V("k"), N(2)], [origin_stmt("vm")], None],
-                                                                             origin_stmt("native")], None],
+                                                                             ["if", ["bin", "==", V("k"), N(3)], [origin_stmt("native")], None],
+                                                                             ["if", ["bin", "==", V("k"), N(4)], [origin_stmt("vmbin")], None],
+                                                                             origin_stmt("vmneg")], None],
                                             ["return", call("thrower", ["bin", "-", V("d"), N(1)], V("k"))]]]]
     params = {"module": [], "fn0": [], "fn1": ["p0"], "fn3": ["p0", "p1", "p2"], "method1": ["p0"], "callback": ["p0"]}[pl]
     body = []
@@ -77,21 +83,33 @@ def scenario(pl, nlocals, prefix, loop, nest, rdepth, origin, filt, exitp, late)
                                                                            ["if", ["bin", "==", V("pl"), N(2)], [["break"]], None], ["expr", ["assign", "r", ["bin", "+", V("r"), inv(V("q2"), "str")]]]]]]
     kcode = ORIGINS.index(origin)
     action = []
-    action.append(["let", "t0", S("in")])
+    if not (origin in ("vmbin", "vmneg") and rdepth == 0):
+        # (for these two the failing statement is the first of the block: the slot under its operands is a local that outlives the try)
+        action.append(["let", "t0", S("in")])
     if rdepth is not None:
         action.append(["expr", call("thrower", N(rdepth), N(kcode))] if rdepth > 0 else origin_stmt(origin))
     if exitp == "break":
-        action.append(["break"])
+        exit_stmt = ["break"]
     elif exitp == "continue":
-        action.append(["continue"])
+        exit_stmt = ["continue"]
     elif exitp == "return":
-        action.append(["return", S("ret")])
+        exit_stmt = ["return", S("ret")]
     elif exitp == "return_raises":
-        action.append(["return", ["list", [S("ret"), call("thrower", N(1), N(kcode))]]])
+        exit_stmt = ["return", ["list", [S("ret"), call("thrower", N(1), N(kcode))]]]
     else:
-        action.append(["expr", ["assign", "r", ["bin", "+", V("r"), S("+done")]]])
+        exit_stmt = ["expr", ["assign", "r", ["bin", "+", V("r"), S("+done")]]]
     handler = [["expr", ["assign", "r", ["bin", "+", V("r"), S("+caught")]]], err_print("h")]
-    tr = ["try", action, "e", filt, handler]
+    if nest in ("exit_after_inner", "exit_in_inner_catch"):
+        # the exit leaves the OUTER try from a point after the inner try block: behind the whole inner statement, or inside the inner handler
+        if nest == "exit_after_inner":
+            tr = ["try", [["let", "o0", N(1)], ["try", action, "e", filt, handler], exit_stmt], "e2", None,
+                  [["expr", ["assign", "r", ["bin", "+", V("r"), S("+outercaught")]]], err_print("h2", "e2")]]
+        else:
+            tr = ["try", [["let", "o0", N(1)], ["try", action, "e", filt, handler + [exit_stmt]], ["expr", ["assign", "r", ["bin", "+", V("r"), S("+outerbody")]]]], "e2", None,
+                  [["expr", ["assign", "r", ["bin", "+", V("r"), S("+outercaught")]]], err_print("h2", "e2")]]
+    else:
+        action.append(exit_stmt)
+        tr = ["try", action, "e", filt, handler]
     if nest == "inner":
         tr = ["try", [["let", "o0", N(1)], tr, ["expr", ["assign", "r", ["bin", "+", V("r"), S("+outerbody")]]]], "e2", None,
               [["expr", ["assign", "r", ["bin", "+", V("r"), S("+outercaught")]]], err_print("h2", "e2")]]
@@ -123,7 +141,9 @@ def scenario(pl, nlocals, prefix, loop, nest, rdepth, origin, filt, exitp, late)
         d = [["fn", "f", [], [["let", "res", ["list", []]], ["expr", inv(inv(["list", [N(1), N(2)]], "iter"), "each", ["lambda", params, body, False])], ["return", S("cbend")]]]]
         c = call("f")
     return header + d + [["try", [["print", [S("ret"), c]]], "eo", None, [err_print("outer", "eo")]],
-                         ["try", [["print", [S("ret2"), c]]], "eo", None, [err_print("outer2", "eo")]], ["print", [S("end")]]]
+                         ["try", [["print", [S("ret2"), c]]], "eo", None, [err_print("outer2", "eo")]],
+                         # an error of the caller right behind the call: a handler the callee left installed would receive it
+                         ["try", [["print", [S("ret3"), c]], ["raise", call("Error", S("aftercall"))]], "eo", None, [err_print("outer3", "eo")]], ["print", [S("end")]]]
 
 
 def opc_expected(spec):
@@ -208,8 +228,8 @@ class C04(Check):
             space = itertools.product(PLACEMENTS, (0, 2), PREFIXES, LOOPS, NESTS, RAISES, ORIGINS, FILTERS, EXITS, (False, True))
         else:
             space = itertools.chain(
-                itertools.product(PLACEMENTS, (0, 2), PREFIXES, LOOPS, ["single"], [None, 2], ["error", "vm"], [None, "OtherErr"], EXITS, (False, True)),
-                itertools.product(["fn1", "method1", "callback"], (2,), ["none", "send"], LOOPS, ["inner", "incatch"], RAISES, ORIGINS, FILTERS, EXITS, (True,)))
+                itertools.product(PLACEMENTS, (0, 2), PREFIXES, LOOPS, ["single"], [None, 0, 2], ["error", "vm", "vmbin"], [None, "OtherErr"], EXITS, (False, True)),
+                itertools.product(["fn1", "method1", "callback"], (2,), ["none", "send"], LOOPS, ["inner", "incatch", "exit_after_inner", "exit_in_inner_catch"], RAISES, ORIGINS, FILTERS, EXITS, (True,)))
         from vlib import spaces
         for sp in spaces.opcode_prefix_specs(True):
             yield ("opc", sp)
